@@ -117,7 +117,7 @@ def BState.FrameEq (s s' : BState) : Prop :=
     caller-specific condition `P` on the frame and the range end holds (e.g. `endLine = lineMax`, which
     is what the top-level call and a terminated block quote give the `paragraph` rule) -/
 structure CallCtx (P : BState → Nat → Prop) (s : BState) (line endLine : Nat) : Prop where
-  len : s.lines.length = s.lineMax + 1
+  len : s.lineMax + 1 ≤ s.lines.length
   lt : line < endLine
   le : endLine ≤ s.lineMax
   here : ∃ l, s.lines[line]? = some l ∧ l.empty = false ∧ s.blkIndent ≤ l.sCount
